@@ -304,15 +304,19 @@ def proc_job(argv, inherit=True, control=False, interruptible=True, reqenv=(), m
 
 def proc_line(lanes, cancel, base, jobs):
     b = "environ" if base is None else ("." if not base else ",".join(hx(x) for x in base))
-    return "proc %d %d %s %s" % (lanes, cancel, b, " ".join(jobs))
+    return "proc %d %s %s %s" % (lanes, cancel, b, " ".join(jobs))
 
 def parse_proc(ans):
-    res = []
+    res, tail = [], {}
     for part in ans.split(" | "):
         if part.startswith("J"):
             d = dict(kv.split("=", 1) for kv in part.split(" ")[1:])
             d["out_bytes"] = None if d["out"] == "~" else unhx(d["out"])
             res.append(d)
+        elif "=" in part:
+            tail[part.split("=", 1)[0]] = part.split("=", 1)[1]
+    for d in res:
+        d["_tail"] = tail
     return res
 
 def pattern(n):
@@ -340,6 +344,8 @@ def run_children(chk, drv, model, tmp):
             return ("status-not-fate", "status %s (raw %s), the child's fate asks for %s" % (r["status"], r["exit"], status))
         if raw is not None and int(r["exit"]) != raw:
             return ("status-not-fate", "raw status %s, expected %d" % (r["exit"], raw))
+        if r.get("cblen", "-1") not in ("-1", r["len"]):
+            return ("output-after-completion", "%s of %s output bytes had been delivered when the completion callback ran" % (r["cblen"], r["len"]))
         if out is not None:
             if int(r["len"]) != len(out) or int(r["hash"]) != fnv1a(out) or (r["out_bytes"] is not None and r["out_bytes"] != out):
                 return ("output-not-delivered", "output of %s bytes (hash %s) delivered, the child wrote %d bytes (hash %d)" % (r["len"], r["hash"], len(out), fnv1a(out)))
@@ -444,6 +450,34 @@ def run_children(chk, drv, model, tmp):
         cancel = chk.rng.choice([0, 0, 200, 1000, 3000, 8000, 20000])
         expect("cancel-race-%d" % k, proc_line(lanes, cancel, None, [proc_job(sh_argv(chk.rng.choice(["exit 0", "sleep 0.01", "sleep 0.003; exit 0", "echo x; sleep 0.02"])),
                                                                         control=chk.rng.random() < 0.5) for _ in range(njobs)]), chk_race)
+
+    # a released process keeps writing: several chunks with pauses, and more than a pipe buffer, after the release
+    relmsg = "printf 'llbuild.1\\n%s\\n' \"$LLBUILD_TASK_ID\" >&$LLBUILD_CONTROL_FD; "
+    expect("release-then-chunks", proc_line(2, -1, None, [
+        proc_job(sh_argv("echo pre; " + relmsg + "for i in 1 2 3 4; do sleep 0.08; echo chunk$i; done; sleep 0.05; exit 3", "/bin/bash"), control=True),
+        proc_job(sh_argv(relmsg + "echo a; sleep 0.1; yes 0123456789abcdef | head -c 200000; sleep 0.1; echo tail", "/bin/bash"), control=True)]),
+           lambda rs: std(rs[0], "Failed", 3 << 8, b"pre\nchunk1\nchunk2\nchunk3\nchunk4\n") or std(rs[1], "Succeeded", 0, b"a\n" + pattern(200000) + b"tail\n"))
+    # the same on one lane with a second job that can only run if the lane really was released
+    expect("release-then-chunks-1lane", proc_line(1, -1, None, [
+        proc_job(sh_argv(relmsg + "for i in 1 2 3; do sleep 0.1; echo c$i; done", "/bin/bash"), control=True),
+        proc_job(sh_argv("echo second"))]),
+           lambda rs: std(rs[0], "Succeeded", 0, b"c1\nc2\nc3\n") or std(rs[1], "Succeeded", 0, b"second\n"))
+    # cancellation, then the queue is destroyed INSIDE the SIGKILL grace period (1 s under LLBUILD_TEST): the children that
+    # get no SIGINT (not safely interruptible) or ignore it must still be killed and reaped; the destructor must not
+    # sit out their natural 8 s
+    def chk_destroy(rs):
+        for i, r in enumerate(rs):
+            x = std(r, "Cancelled", 9, None)
+            if x:
+                return (x[0], "job %d (queue destroyed right after cancelAllJobs): %s" % (i, x[1]))
+            if r["alive"] != "0":
+                return ("child-not-reaped", "child %s still exists after the queue was destroyed" % r["pid"])
+        ms = int(rs[0]["_tail"].get("destroy_ms", "-1"))
+        if ms < 0 or ms > 6000:
+            return ("destroy-waits-for-children", "destroying the queue after cancelAllJobs took %d ms: the 8 s children were not killed after the 1 s grace period" % ms)
+        return None
+    for dly in (0, 50000, 300000):
+        expect("cancel-then-destroy-%dms" % (dly // 1000), proc_line(2, "20000+%d" % dly, None, [proc_job(sh_argv("sleep 8"), interruptible=False), proc_job(sh_argv("trap '' INT; sleep 8"))]), chk_destroy)
 
     # A client's ordinary signal handler (no SA_RESTART) must not change any child's fate: SIGUSR1 is sent every 2 ms to the
     # thread executing the job, from processStarted to the completion callback.  The interesting child closes its
